@@ -41,18 +41,51 @@ class _Fut:
 
 
 class SyncRunner:
-    """same interface as aiorunner; the job runs at submission, behind a pickle boundary"""
+    """same interface as aiorunner; the job runs at submission, behind a pickle boundary.
+    `audit(out)` (optional) looks at the job's answer before it is handed back — read-only."""
 
-    def __init__(self, task):
+    def __init__(self, task, audit=None):
         self.task = task
+        self.audit = audit
 
     def submit_work(self, md):
         md_in = pickle.loads(pickle.dumps(md))
         out = self.task(md_in)
+        if self.audit is not None:
+            self.audit(out)
         return _Fut(pickle.loads(pickle.dumps(out)))
 
     def stop(self):
         pass
+
+
+class ExtremeAudit:
+    """Deterministic predicate on every MC step of the real run: what a path reports as its length and as the
+    extremes of its order parameter (`Path.length`, `ordermin`, `ordermax` — the values `treat_output` copies into
+    the `max OP` / `length` columns of the data file, which the estimators read) are the length and the extremes of
+    its frames.  A stale or wrong extreme biases the crossing estimate without changing the sampled chain."""
+
+    def __init__(self):
+        self.checked = 0
+        self.bad = []
+        self.n_bad = 0
+
+    def __call__(self, out):
+        for ens_num, pk in (out.get("picked") or {}).items():
+            traj = pk.get("traj")
+            if traj is None:
+                continue
+            ops = [pp.order[0] for pp in traj.phasepoints]
+            if not ops:
+                continue
+            self.checked += 1
+            got = (float(traj.ordermin[0]), float(traj.ordermax[0]), int(traj.length))
+            want = (float(min(ops)), float(max(ops)), len(ops))
+            if got != want:
+                self.n_bad += 1
+                if len(self.bad) < 5:
+                    self.bad.append({"ens": int(ens_num), "status": str(out.get("status")), "reported_min_max_len": got,
+                                     "frames_min_max_len": want, "frames": [float(x) for x in ops[:60]]})
 
 
 class RandomOrderFutures:
@@ -199,7 +232,8 @@ def run_config(c):
     from infretis.setup import setup_config
 
     order_rng = random.Random(c["order_seed"])
-    sched.setup_runner = lambda state: (SyncRunner(run_md), RandomOrderFutures(order_rng))
+    audit = ExtremeAudit()
+    sched.setup_runner = lambda state: (SyncRunner(run_md, audit), RandomOrderFutures(order_rng))
 
     root = tempfile.mkdtemp(prefix=SCRATCH_PREFIX, dir=SCRATCH)
     old = os.getcwd()
@@ -245,6 +279,7 @@ def run_config(c):
             res["live"], res["final"] = live_rows(n, c["moves"], c.get("cap"))
         except Exception as e:  # noqa: BLE001
             res["live"], res["final"] = [], {"error": f"{type(e).__name__}: {e}"}
+        res["extreme_audit"] = {"checked": audit.checked, "n_bad": audit.n_bad, "bad": audit.bad}
         res["ok"] = True
     except BaseException as e:  # noqa: BLE001
         import traceback
@@ -283,6 +318,52 @@ def estimate_exact(rows, nintf):
                 num += a
         out.append((num, den))
     return out
+
+
+def mean_length_exact(rows, nintf):
+    """Python twin of `Infretis.Lattice.meanLenEst`: for every column k = 1..nintf-1 the pair (lenNum, den) with
+    lenNum = Σ_rows frac_k / w_k · length, as exact rationals (same row filter as `estimate_exact`)."""
+    out = []
+    for k in range(1, nintf):
+        num = den = Fraction(0)
+        for (_pn, ln, _mx, fr, w) in rows:
+            wk = tok(w[k])
+            if wk == 0:
+                continue
+            a = tok(fr[k]) / wk
+            den += a
+            num += a * int(ln)
+        out.append((num, den))
+    return out
+
+
+def ensemble_law(nintf, k, tol=1e-13, tmax=100000):
+    """Independent of every closed form: the law of the plug-in's walk, enumerated.  A path of data column k starts
+    0, 1 and takes fair ±1 steps until it is on site 0 or on site nintf; it belongs to the ensemble iff it has been on
+    site k.  Returns (P(it has been on site k+1 | ensemble), E[number of frames | ensemble]) by propagating the
+    distribution over (site, reached k, reached k+1) step by step until the surviving mass is below `tol`."""
+    cur = {(1, 1 >= k, 1 >= k + 1): 1.0}
+    z = cross = lensum = 0.0
+    t = 2                                  # frames so far
+    while cur and t < tmax:
+        nxt = {}
+        for (x, a, b), p in cur.items():
+            for y in (x - 1, x + 1):
+                a2, b2 = a or y >= k, b or y >= k + 1
+                if y <= 0 or y >= nintf:
+                    if a2:
+                        z += p / 2
+                        lensum += (t + 1) * p / 2
+                        if b2:
+                            cross += p / 2
+                else:
+                    key = (y, a2, b2)
+                    nxt[key] = nxt.get(key, 0.0) + p / 2
+        cur = nxt
+        t += 1
+        if sum(cur.values()) * t < tol:
+            break
+    return cross / z, lensum / z
 
 
 # ----------------------------------------------------------------------------- statistics (floats)
